@@ -298,13 +298,16 @@ class PortsWorld(World):
         attr, role = a.port
         port_a = getattr(a.dut, attr)
         # complementary *standard* interface with the same parameters
+        # (the parameters given to the constructor where it takes them explicitly, otherwise the
+        # ones the component reports for its port)
+        pp = a.port_params
         if hasattr(port_a, "granularity"):
-            far = wishbone.Interface(addr_width=port_a.addr_width, data_width=port_a.data_width,
-                                     granularity=port_a.granularity, features=port_a.features,
-                                     path=("far",))
+            pp = pp or {"addr_width": port_a.addr_width, "data_width": port_a.data_width,
+                        "granularity": port_a.granularity, "features": port_a.features}
+            far = wishbone.Interface(path=("far",), **pp)
         else:
-            far = csr.Interface(addr_width=port_a.addr_width, data_width=port_a.data_width,
-                                path=("far",))
+            pp = pp or {"addr_width": port_a.addr_width, "data_width": port_a.data_width}
+            far = csr.Interface(path=("far",), **pp)
         top = hw.make_top(a.dut, b.dut)
         try:
             if role == "target":
